@@ -24,109 +24,109 @@ _LEVEL = ('Static analysis of the current source: every rule enumerates all inst
 _TRUST = (' Trusted: CPython ast parser, documented stdlib semantics of the calls the rules name, the lt_static engines '
           '(self-tested by must-fire / must-stay-silent variants in the thorough tier). User task code is opaque.')
 
-_p('C01', claimed=False,
+_p('C01', claimed=True,
    text=_LEVEL + 'result routing - request-order re-keying, capture of requested results keyed by the yielded task, runner '
    'results keyed by the task whose execution produced them, run/load value provenance, Task.result reads its own entry, '
    'results map attached to every direct dependency before execution.',
    note='Not decided: that run() computes the reference value; equality of values across backends; real schedules.' + _TRUST,
    technique='provenance (reaching definitions, same-binding), loop completeness, dominance on the CFG',
    na_reason='check under construction (see DESIGN.md section 4)')
-_p('C02', claimed=False,
+_p('C02', claimed=True,
    text=_LEVEL + 'dependency discovery tables agree with what construction produces, DAG edge registration is complete, the '
    'readiness gate dominates every submission, dependencies are unblocked only in the completion phase for a yielded task, '
    'results are stored before the success yield, a missing result raises.',
    note='Not decided: real start/finish instants under the real backends; only the gating logic is decided.' + _TRUST,
    technique='case-table agreement, guard formulas (emptiness normal form), field-write ownership by phase, CFG dominance',
    na_reason='check under construction (see DESIGN.md section 4)')
-_p('C03', claimed=False,
+_p('C03', claimed=True,
    text=_LEVEL + 'submit-once pairing (start phase dominates submit, pending set only grows in construction), identity-level '
    'instance marking, dependencies of cache-served tasks are not expanded, plan-time and submit-time predicates agree, '
    'use_cache truth table, load-xor-execute in run_or_load_task.',
    note='Not decided: behaviour of user-defined __eq__/__hash__; run-time execution counts.' + _TRUST,
    technique='CFG dominance, control dependence, truth tables over guard atoms, field-write ownership, call-site agreement',
    na_reason='check under construction (see DESIGN.md section 4)')
-_p('C04', claimed=False,
+_p('C04', claimed=True,
    text=_LEVEL + 'the per-type gate and the worker gate are in linear normal form with the exact bounds, active-task '
    'bookkeeping is owned by the start/completion phases, processes are constructed and started only in the sanctioned '
    'top-up routine, the max_workers default is os.cpu_count(), the serial runner runs one task per wait.',
    note='Not decided: instantaneous process counts under the real OS scheduler; os.cpu_count() returning None.' + _TRUST,
    technique='linear normal forms of guards and slice bounds, who-may-call over the package, field-write ownership',
    na_reason='check under construction (see DESIGN.md section 4)')
-_p('C05', claimed=False,
+_p('C05', claimed=True,
    text=_LEVEL + 'every ready task is submitted before each wait, the ready scan is complete with only the two sanctioned '
    'skips in the sanctioned order, top-up happens at submit and at wait after slots are freed, the capacity bounds are '
    'equalities (never fewer), every terminal transition frees its slot.',
    note='Not decided: real scheduling latency; only the structural conditions of maximal parallelism.' + _TRUST,
    technique='loop completeness, must-pass on the CFG, exact path conditions (equivalence, not implication), typestate pairing',
    na_reason='check under construction (see DESIGN.md section 4)')
-_p('C06', claimed=False,
+_p('C06', claimed=True,
    text=_LEVEL + 'writer/reader agreement between save and load: key provenance, file names, metadata keys and their '
    'inverse codecs, file modes and serialisers, save writes metadata and result, is_cached chain, load returns result+meta.',
    note='Not decided: byte-level fidelity of pickle/JSON; behaviour in a fresh interpreter (time zone, __main__).' + _TRUST,
    technique='table agreement (dict-literal keys vs reads, codec inverse table), provenance of key arguments, must-pass',
    na_reason='check under construction (see DESIGN.md section 4)')
-_p('C07', claimed=False,
+_p('C07', claimed=True,
    text=_LEVEL + 'the key computation is free of nondeterminism sources and of context/result state, covers every field and '
    'nesting level and the class module+qualname, tests Enum before scalars, produces only characters the storage accepts; '
    'canonical ordering and shape disjointness are decided negatively (two known findings).',
    note='Not decided: __main__-defined classes; SHA-1 collision resistance; float/str edge cases of json.dumps.' + _TRUST,
    technique='effect closure over the call graph, case-table order, loop/comprehension completeness, abstract character sets',
    na_reason='check under construction (see DESIGN.md section 4)')
-_p('C08', claimed=False,
+_p('C08', claimed=True,
    text=_LEVEL + 'who may write or delete storage (call-graph ownership), bust_cache honoured at plan and submit time, '
    'uncache loop complete, NullCache/NullStorage inert, LocalStorage and FsspecStorage agree on the feature vector of '
    'exists/file_handle/delete.',
    note='Not decided: step-by-step equivalence with a reference map; third-party fsspec back ends.' + _TRUST,
    technique='who-may-call ownership over the resolved call graph, truth tables, sibling feature-vector agreement',
    na_reason='check under construction (see DESIGN.md section 4)')
-_p('C09', claimed=False,
+_p('C09', claimed=True,
    text=_LEVEL + 'serialiser/deserialiser shape tables agree (incl. recursion into lists and dicts), class/enum round-trip '
    'templates, load_task guards dominate the return, cached_tasks loop appends once per key and swallows only TaskNotFound, '
    'key-format prefix agreement, ordering agreement between key hashing and stored metadata.',
    note='Not decided: importability of the stored class path at load time; nested (non-module-level) classes.' + _TRUST,
    technique='case-table agreement between sibling functions, guard dominance, f-string template comparison',
    na_reason='check under construction (see DESIGN.md section 4)')
-_p('C10', claimed=False,
+_p('C10', claimed=True,
    text=_LEVEL + 'failure branch completes the task then reports, outcome-type table covers what runners yield, partial maps '
    'are only subscripted under a guard, stores happen on success paths only, handle_failure truth table and raise-from, '
    'every runner converts any exception into a yielded failure, nothing is started from the exceptional exit.',
    note='Not decided: that every OS-level death is observed (is_alive semantics trusted).' + _TRUST,
    technique='exception-handler policies on the CFG, guarded-subscript analysis, type-table agreement, truth tables',
    na_reason='check under construction (see DESIGN.md section 4)')
-_p('C11', claimed=False,
+_p('C11', claimed=True,
    text=_LEVEL + 'completion bookkeeping is success-independent, future/slot typestate pairing in ProcessExecutor, done '
    'futures are forgotten, dead-process detection order, main-loop condition, bounded drain.',
    note='Not decided: wall-clock bounds; bytecode-level interleavings; lost wake-ups under real scheduling.' + _TRUST,
    technique='path-local typestate, control dependence, dominance, loop-exit analysis',
    na_reason='check under construction (see DESIGN.md section 4)')
-_p('C12', claimed=False,
+_p('C12', claimed=True,
    text=_LEVEL + 'every storage write effect of a save lies inside a handler that deletes the same key and re-raises; the '
    'failure propagates to the runner boundary.',
    note='Not decided: faults inside storage.delete itself (single-fault assumption of the property).' + _TRUST,
    technique='effect enumeration over the save closure + exception-handler coverage on the CFG',
    na_reason='check under construction (see DESIGN.md section 4)')
-_p('C13', claimed=False,
+_p('C13', claimed=True,
    text=_LEVEL + 'commit-point rule: the effect that makes is_cached true must come after the last payload write as one '
    'atomic publish. Decided negatively on the pinned tree (known finding); the check reports any additional regression '
    '(payload order, visibility predicate).',
    note='Nothing further is decided; SIGKILL timing is outside static reach.' + _TRUST,
    technique='abstract effect trace of a save over the Storage API',
    na_reason='check under construction (see DESIGN.md section 4)')
-_p('C14', claimed=False,
+_p('C14', claimed=True,
    text=_LEVEL + 'every exit of the interrupt handler raises KeyboardInterrupt, cancel precedes waits, nothing is submitted '
    'in the handler, stop on the second interrupt, KeyboardInterrupt transparency of calling-thread handlers, '
    'dequeue-before-deliver in wait generators, SIGINT ignored first in workers, queue consumed in a thread, cleanup in finally.',
    note='Not decided: real signal delivery instants; the fork->SIG_IGN window; interrupts between bytecodes.' + _TRUST,
    technique='exception-handler structure and exits on the CFG, dominance, generator suspension-point analysis, who-may-call',
    na_reason='check under construction (see DESIGN.md section 4)')
-_p('C15', claimed=False,
+_p('C15', claimed=True,
    text=_LEVEL + 'type-case tables of construction / dependency search / serialiser / mlflow logger agree, every path of the '
    'normaliser ends in a sanctioned form, dataclass(frozen, eq) with __post_init__ attached first, reserved-name agreement, '
    'constructor/unpickle agreement, pickled state is clean and re-normalised.',
    note='Not decided: hash/eq laws and pickle round trips over all parameter trees (library semantics trusted).' + _TRUST,
    technique='case-table extraction and inclusion, path enumeration of a small function, attribute-set agreement',
    na_reason='check under construction (see DESIGN.md section 4)')
-_p('C16', claimed=False,
+_p('C16', claimed=True,
    text=_LEVEL + 'process creation goes through the backend\'s start-method context, backend-name/start-method constant flow, '
    'the context reaching run_or_load_task derives from task.filter_context(Lab context) per backend and is set before run(), '
    'context never reaches keys/entries/pickles, one process per task, fork memory lifetime.',
@@ -145,13 +145,13 @@ _p('C18', claimed=True,
    'validator rejects empty keys, all separator/dot characters and non-children after resolution.',
    note='Not decided: races with a concurrent writer of the storage directory; pathlib semantics are trusted.' + _TRUST,
    technique='taint/provenance analysis with a recognised sanitiser, guard facts on the CFG, loop completeness')
-_p('C19', claimed=False,
+_p('C19', claimed=True,
    text=_LEVEL + 'log queue drained after the executor wait, stdout/stderr proxies flushed before the worker returns, buffer '
    'cleared when emitted, worker logger reset to exactly one queue handler, drain consumes everything, same queue end to end.',
    note='Not decided: inter-process queue latency; records emitted by threads a task leaves running.' + _TRUST,
    technique='must-pass / post-dominance on the CFG, path-local typestate, provenance of the queue argument',
    na_reason='check under construction (see DESIGN.md section 4)')
-_p('C20', claimed=False,
+_p('C20', claimed=True,
    text=_LEVEL + 'worklist closure of the structure builder, relationship registration for every (field, sub-task) pair, '
    'cardinality truth table, one block per type, all fields listed, no nondeterminism source in the diagram closure.',
    note='Not decided: the exact Mermaid text for all graphs.' + _TRUST,
